@@ -12,6 +12,7 @@ same PTI/PTO objects.
 """
 from __future__ import annotations
 
+import copy
 import json
 
 import numpy as np
@@ -96,7 +97,7 @@ def run_case(ctx, case, model=True):
             if min(abs(pair_f - ein), abs(pair_g - sout)) > eps:
                 ctx.fail("predicate", "pti-powers-not-a-conversion-pair", f"step {t}: electrical {ein} / shaft {sout}: f(shaft)={pair_f}, g(electrical)={pair_g}", where)
             if full:
-                eff = float(obj.get_efficiency_from_load_percentage(abs(L) / obj.rated_power))
+                eff = float(obj.get_efficiency_from_load_percentage(abs(L) / rated))
                 if abs(sout - L) > eps or abs(ein - L / eff) > eps:
                     ctx.fail("predicate", "full-pti-not-load-plus-loss", f"step {t}: load {L}, shaft {sout}, electrical {ein}, load/eff {L / eff}", where)
             # ---- correspondence
@@ -164,13 +165,15 @@ def run_config_case(ctx, rng, model=True):
     espec = plants.gen_electric_plant(rng, n_swb=1, with_pti=False, with_storage=False)
     k = int(rng.integers(0, 3))
     ptis = [plants.gen_serial_spec(rng, "pti_pto", f"p{i}", 1, 500.0, shaft_line=i + 1) for i in range(k)]
-    mode = str(rng.choice(["same", "copy", "fewer", "none"]))
+    mode = str(rng.choice(["same", "copy", "deepcopy", "fewer", "none"]))
     ctx.count("config", f"{mode}:{k}")
     e_objs = [plants.build_electric_component(p) for p in ptis]
     if mode == "same":
         m_objs = list(e_objs)
     elif mode == "copy":
         m_objs = [plants.build_electric_component(p) for p in ptis]        # equal but different objects
+    elif mode == "deepcopy":
+        m_objs = [copy.deepcopy(o) for o in e_objs]                           # equal, same uid, different objects
     elif mode == "fewer":
         m_objs = e_objs[:-1]
     else:
@@ -192,7 +195,7 @@ def run_config_case(ctx, rng, model=True):
         ctx.fail("predicate", "same-machine-rule", f"{k} PTI/PTO, mechanical side '{mode}': accepted={accepted}", where)
     if model and ctx.model_available:
         ids_e = list(range(k))
-        ids_m = {"same": ids_e, "copy": [100 + i for i in ids_e], "fewer": ids_e[:-1], "none": []}[mode]
+        ids_m = {"same": ids_e, "copy": [100 + i for i in ids_e], "deepcopy": [200 + i for i in ids_e], "fewer": ids_e[:-1], "none": []}[mode]
         m = ctx.model.call("hybrid.same_machines", elec=ids_e, mech=ids_m)
         if bool(m) != accepted:
             ctx.fail("correspondence", "same-machines", f"model {m} impl {accepted}", where)
